@@ -28,7 +28,7 @@ ASSUMPTIONS = [
 ALPHABET = "device x type x casing x name; graph; registry; hardware list"
 BOUND = {"quick": "VMX singles, pairs, triples (thin), OVF <= 2/2/3, VBox <= 3 disks, PVS <= 5 devices",
          "thorough": "adds all VMX triples over a 6-position grid and OVF with 3 files"}
-EXPECT_OUTCOMES = ["vmx", "vmx-dict", "ovf", "vbox", "pvs"]
+EXPECT_OUTCOMES = ["vmx", "vmx-dict", "ovf", "vbox", "pvs", "vmx-encrypted", "ovf-interleaved"]
 
 BUSES = ["scsi", "sata", "ide", "nvme"]
 TYPES = [None, "scsi-hardDisk", "ata-hardDisk", "disk", "rawDisk", "cdrom-image", "cdrom-raw", "atapi-cdrom"]
@@ -38,7 +38,8 @@ CASINGS = ["lower", "camel", "upper"]
 
 
 def shards(tier):
-    out = [{"kind": "vmx1"}, {"kind": "vmx-dict"}, {"kind": "vbox"}, {"kind": "pvs"}]
+    out = [{"kind": "vmx1"}, {"kind": "vmx-dict"}, {"kind": "vbox"}, {"kind": "pvs"}, {"kind": "vmx-encrypted"},
+           {"kind": "ovf-interleaved"}]
     out += [{"kind": "vmx2", "slice": [i, 8]} for i in range(8)]
     out += [{"kind": "vmx3", "slice": [i, 4], "full": tier != "quick"} for i in range(4)]
     out += [{"kind": "ovf", "slice": [i, 8], "files": 2 if tier == "quick" else 3} for i in range(8)]
@@ -90,6 +91,15 @@ def run_shard(shard, ctx):
     elif kind == "vmx-dict":
         for c in _dict_cases():
             run_case(c, ctx)
+    elif kind == "vmx-encrypted":
+        for outer_dev in (0, 1):
+            for order in ("before+after", "after", "before+fail+after"):
+                for nin in (1, 2, 3):
+                    run_case({"kind": "vmx-encrypted", "outer": outer_dev, "order": order, "inner": nin}, ctx)
+    elif kind == "ovf-interleaved":
+        for forms in itertools.product((0, 1, 2), repeat=2):
+            for which in ("A-then-B", "B-then-A", "A-B-A"):
+                run_case({"kind": "ovf-interleaved", "forms": list(forms), "which": which}, ctx)
     elif kind == "ovf":
         for c in sliced(_ovf_cases(shard["files"]), *shard["slice"]):
             run_case(c, ctx)
@@ -191,6 +201,80 @@ def _twice(fn):
     if a != b:
         return ["<second enumeration differs>", a, b]
     return a
+
+
+def _do_vmx_encrypted(case):
+    """disks() before and after unlock_with_phrase on one object: the list follows the visible configuration."""
+    from dissect.hypervisor.descriptor.vmx import VMX
+
+    from mc.builders import vmxenc as BV
+
+    inner = [("scsi", 0, i, None, f"inner{i}.vmdk") for i in range(case["inner"])] + [("ide", 1, 0, "cdrom-image", "cd.iso")]
+    outer = [("sata", 0, 0, "disk", "outer.vmdk")] if case["outer"] else []
+    cfg = "\n".join(ln for d in inner for ln in _vmx_lines(d, "camel"))
+    dk = BV.det_bytes("dk", 32)
+    pair, _ = BV.pair_text("pw", "PBKDF2-HMAC-SHA-1", "AES-256", 1, BV.det_bytes("s", 16), "HMAC-SHA-256", "AES-256", dk, BV.det_bytes("iv", 16))
+    outer_kv = [(".encoding", "UTF-8"), ("displayName", "enc")]
+    for d in outer:
+        for ln in _vmx_lines(d, "camel"):
+            k, _, v = ln.partition(" = ")
+            outer_kv.append((k, v.strip('"')))
+    text = BV.vmx_text([pair], BV.seal(dk, cfg.encode(), "HMAC-SHA-256", BV.det_bytes("i2", 16)), outer_kv)
+    v = VMX.parse(text)
+    exp_before = _vmx_expected(outer)
+    exp_after = _vmx_expected(outer + inner)
+    got = []
+    exp = []
+    if "before" in case["order"]:
+        got.append(v.disks())
+        exp.append(exp_before)
+    if "fail" in case["order"]:
+        try:
+            v.unlock_with_phrase("nope")
+            got.append("unlocked with a wrong passphrase")
+        except Exception:
+            got.append(v.disks())
+        exp.append(exp_before)
+    v.unlock_with_phrase("pw")
+    got.append(v.disks())
+    exp.append(exp_after)
+    got.append(v.disks())
+    exp.append(exp_after)
+    return got, exp, True
+
+
+def _do_ovf_interleaved(case):
+    """Two OVF objects alive at once with the same ids and different files: each answers from its own document."""
+    from dissect.hypervisor.descriptor.ovf import OVF
+
+    def doc(tag, form):
+        ns = f'xmlns="{NS_OVF}" xmlns:ovf="{NS_OVF}" xmlns:rasd="{NS_RASD}"'
+        paths = [["ovf:/disk/vmdisk1", "ovf:/disk/vmdisk2"], ["ovf:/file/file1", "ovf:/file/file2"], ["ovf:/disk/vmdisk2", "ovf:/file/file1"]][form]
+        items = "".join(f"<Item><rasd:HostResource>{p}</rasd:HostResource><rasd:ResourceType>17</rasd:ResourceType></Item>" for p in paths)
+        text = (f'<?xml version="1.0"?><Envelope {ns}><References><File ovf:id="file1" ovf:href="{tag}-disk1.vmdk"/>'
+                f'<File ovf:id="file2" ovf:href="{tag}-disk2.vmdk"/></References><DiskSection><Info>i</Info>'
+                f'<Disk ovf:diskId="vmdisk1" ovf:fileRef="file1"/><Disk ovf:diskId="vmdisk2" ovf:fileRef="file2"/></DiskSection>'
+                f'<VirtualSystem ovf:id="vm"><VirtualHardwareSection>{items}</VirtualHardwareSection></VirtualSystem></Envelope>')
+        exp = [[f"{tag}-disk1.vmdk", f"{tag}-disk2.vmdk"], [f"{tag}-disk1.vmdk", f"{tag}-disk2.vmdk"],
+               [f"{tag}-disk2.vmdk", f"{tag}-disk1.vmdk"]][form]
+        return text, exp
+
+    ta, ea = doc("alpha", case["forms"][0])
+    tb, eb = doc("beta", case["forms"][1])
+    a = OVF(io.StringIO(ta))
+    ga = a.disks()  # lazy
+    b = OVF(io.StringIO(tb))
+    gb = b.disks()
+    if case["which"] == "A-then-B":
+        got = [list(ga), list(gb)]
+        exp = [ea, eb]
+    elif case["which"] == "B-then-A":
+        got = [list(gb), list(ga)]
+        exp = [eb, ea]
+    else:
+        got = [list(ga), list(gb), list(a.disks())]
+        exp = [ea, eb, ea]
+    return got, exp, True
 
 
 # ---- OVF ---------------------------------------------------------------------------------------------------------------
